@@ -204,7 +204,21 @@ def case_random(ctx, rng, wd, l=None):
                 ww.append(np.round(rng.uniform(0.05, 3.0, size=len(pick)), 6))
             lists_own.append(ll)
             w_own.append(ww)
-        write_nl(fn, lists_own)
+        if rng.random() < 0.3:
+            # history: ANOTHER list of the same shape lived under this name and was analysed with the same arguments; it was then replaced
+            # by the present one with its time stamp preserved (cp -p, restored from a backup): the content decides
+            alt = [[x[:max(1, len(x) // 2)] for x in ll] for ll in lists_own]
+            if all(len(x) for ll in alt for x in ll) and alt != lists_own:
+                write_nl(fn, alt)
+                st_ = os.stat(fn)
+                ctx.call("boo_3d/prior_object_other_file", boo_3d, snaps, l, fn, None, ppp, max(30, max(len(x) for ll in lists_own for x in ll) + 1))
+                write_nl(fn, lists_own)
+                os.utime(fn, ns=(st_.st_atime_ns, st_.st_mtime_ns))
+                ctx.count("file_replaced_with_preserved_time_stamp")
+            else:
+                write_nl(fn, lists_own)
+        else:
+            write_nl(fn, lists_own)
         if rng.random() < 0.6:
             fw = os.path.join(wd, "w.dat")
             with open(fw, "w") as f:
